@@ -72,7 +72,36 @@ def make_case(seed, tier):
         nested = [c for c in cands if c[0].get('path_input')]
         w, t = rng.choice(nested if (want_nested and nested) else cands)
         # no on-error handler for the failing task: the workflow must fail
-        t.pop('on_error', None)
+        # - or (handled variant) the error is handled by an on-error route
+        # whose target then fails itself, so that the workflow still ends
+        # in ERROR while the failed task has successors
+        handled = None
+        if not w.get('path_input') and rng.random() < 0.25:
+            by_name = dict((x['name'], x) for x in w['tasks'])
+            for en in t.get('on_error') or []:
+                y = by_name.get(en.get('to'))
+                if y is not None and y is not t and \
+                        y.get('join') is None and \
+                        not y.get('with_items') and \
+                        (y.get('body') or {}).get('kind') in ('sync',
+                                                              'async'):
+                    handled = y
+                    break
+        if handled is None and not w.get('path_input') and \
+                not w.get('task_defaults') and rng.random() < 0.2 and \
+                not any(x['name'] == 'eh' for x in w['tasks']):
+            handled = {'name': 'eh', 'body': {'kind': 'sync'}}
+            w['tasks'].append(handled)
+            t['on_error'] = [{'to': 'eh'}]
+        if handled is not None:
+            keep = [en for en in t['on_error']
+                    if en.get('to') == handled['name']][:1]
+            t['on_error'] = [{'to': keep[0]['to']}]
+            handled.pop('on_error', None)
+            handled.pop('on_complete', None)
+            handled.pop('retry', None)
+        else:
+            t.pop('on_error', None)
         t.pop('on_complete', None)
         t.pop('publish_on_error', None)
         (w.get('task_defaults') or {}).pop('on_error', None)
@@ -125,6 +154,10 @@ def make_case(seed, tier):
                           ['err', 'boom-again']])
         case['outcomes'] = {'%s/%d' % (tagp, fail_item): seq + [new] +
                             [['ok', 'fixed-2']]}
+        if handled is not None:
+            case['outcomes']['%s.%s/0' % (w['name'], handled['name'])] = \
+                [['err', 'boom2']] * 4
+            case['handled'] = handled['name']
         case['fail'] = {'wf': w['name'], 'task': t['name'],
                         'item': fail_item, 'n_fail': n_fail}
         rr, rrec0 = progcase.reference(case)
@@ -427,6 +460,7 @@ def probes(case, res):
                                 and case['fail']['wf'] !=
                                 case['prog']['workflows'][0]['name']))
     p['hold_branch'] = int(bool(case.get('hold')))
+    p['handled_variant'] = int(bool(case.get('handled')))
     p['error_routes_ran'] = int(bool(res.extra.get('error_routes_ran')))
     p['final_success'] = int(any(
         w['state'] == 'SUCCESS' and not w['task_execution_id']
